@@ -84,9 +84,37 @@ def apply_patch(m):
                 return None
             os.makedirs(os.path.dirname(os.path.join(tmp, rel)), exist_ok=True)
             shutil.copy(src, os.path.join(tmp, rel))
-        p = subprocess.run(["git", "apply", "--whitespace=nowarn", os.path.abspath(m["patch"])], cwd=tmp, capture_output=True, text=True, env={**os.environ, "GIT_DIR": "/nonexistent", "GIT_CEILING_DIRECTORIES": "/"})
+        genv = {**os.environ, "GIT_DIR": "/nonexistent", "GIT_CEILING_DIRECTORIES": "/"}
+        p = subprocess.run(["git", "apply", "--whitespace=nowarn", os.path.abspath(m["patch"])], cwd=tmp, capture_output=True, text=True, env=genv)
         if p.returncode != 0:
-            return None
+            # the tree moved on since the patch was written (fix: commits): apply it to the files of the commit it
+            # was written against and merge the result into the current files (three-way, no conflicts allowed)
+            base_commit = m.get("base") or PATCH_BASE
+            btmp = tempfile.mkdtemp(prefix="b-", dir=tmp)
+            try:
+                for rel in rels:
+                    q = subprocess.run(["git", "-C", REPO, "show", f"{base_commit}:{rel}"], capture_output=True, text=True)
+                    if q.returncode != 0:
+                        return None
+                    for sub in ("base", "theirs"):
+                        os.makedirs(os.path.dirname(os.path.join(btmp, sub, rel)), exist_ok=True)
+                        with open(os.path.join(btmp, sub, rel), "w") as f:
+                            f.write(q.stdout)
+                p2 = subprocess.run(["git", "apply", "--whitespace=nowarn", os.path.abspath(m["patch"])], cwd=os.path.join(btmp, "theirs"), capture_output=True, text=True, env=genv)
+                if p2.returncode != 0:
+                    return None
+                for rel in rels:
+                    p3 = subprocess.run(["git", "merge-file", "-p", os.path.join(tmp, rel), os.path.join(btmp, "base", rel), os.path.join(btmp, "theirs", rel)], capture_output=True, text=True, env=genv)
+                    if p3.returncode != 0 and not m.get("benign"):
+                        # a breaking change whose region was touched by a later fix: take the change's version of
+                        # the conflicting region (it may undo the fix there - it is meant to break things)
+                        p3 = subprocess.run(["git", "merge-file", "-p", "--theirs", os.path.join(tmp, rel), os.path.join(btmp, "base", rel), os.path.join(btmp, "theirs", rel)], capture_output=True, text=True, env=genv)
+                    if p3.returncode != 0:
+                        return None  # conflict: the patch does not carry over to the current tree
+                    with open(os.path.join(tmp, rel), "w") as f:
+                        f.write(p3.stdout)
+            finally:
+                shutil.rmtree(btmp, ignore_errors=True)
         out = {}
         for rel in rels:
             with open(os.path.join(tmp, rel)) as f:
@@ -124,6 +152,7 @@ def _check(prop, root, base, tier="quick"):
 
 
 _BASELINE = {}
+PATCH_BASE = "f42ab3b"  # the commit the seeded changes and the refactoring corpus were written against
 ALL_PROPS = [f"C{i:02d}" for i in range(1, 21)]
 
 
